@@ -201,6 +201,58 @@ fn check_cmplx(u: &[Cmplx], v: &[Cmplx], acc: &mut Acc) -> Result<(), String> {
     Ok(())
 }
 
+/// u = su * u0, v = sv * v0 with su, sv powers of two up to 2^+-480: the quotient is (su / sv) q0 and the remainder su r0, so
+/// after exact unscaling the division identity is judged on the O(1) twins u0, v0 (hand-written complex arithmetic)
+fn check_cmplx_scaled(u0: &[Cmplx], v0: &[Cmplx], su: f64, sv: f64, acc: &mut Acc) -> Result<(), String> {
+    let z = Cmplx::new(0.0, 0.0);
+    if v0.iter().all(|c| *c == z) || *v0.last().unwrap() == z {
+        return Ok(());
+    }
+    let pu = Polynomial::new(u0.iter().map(|c| Cmplx::new(c.real * su, c.imag * su)).collect::<Vec<_>>());
+    let pv = Polynomial::new(v0.iter().map(|c| Cmplx::new(c.real * sv, c.imag * sv)).collect::<Vec<_>>());
+    let (q, rm) = match pu.polydiv(&pv) {
+        Ok(x) => x,
+        Err(e) => return Err(format!("Err({}) although the divisor has a non-zero leading coefficient", e)),
+    };
+    // (re, im) pairs, unscaled exactly: q / (su / sv) in two steps, r / su
+    let qc: Vec<(f64, f64)> = coeffs_of(&q).iter().map(|c| (c.real / su * sv, c.imag / su * sv)).collect();
+    let rc: Vec<(f64, f64)> = coeffs_of(&rm).iter().map(|c| (c.real / su, c.imag / su)).collect();
+    ensure!(qc.iter().chain(rc.iter()).all(|c| c.0.is_finite() && c.1.is_finite()), "quotient {:?} / remainder {:?} not finite", coeffs_of(&q), coeffs_of(&rm));
+    let n = (qc.len() + v0.len()).max(rc.len()).max(u0.len()) + 1;
+    let mut worst = 0.0f64;
+    let mut scale = 0.0f64;
+    for k in 0..n {
+        let (mut sr, mut si) = if k < u0.len() { (u0[k].real, u0[k].imag) } else { (0.0, 0.0) };
+        let mut sc = sr.hypot(si);
+        for i in 0..qc.len() {
+            if k >= i && k - i < v0.len() {
+                let w = v0[k - i];
+                sr -= qc[i].0 * w.real - qc[i].1 * w.imag;
+                si -= qc[i].0 * w.imag + qc[i].1 * w.real;
+                sc += qc[i].0.hypot(qc[i].1) * w.real.hypot(w.imag);
+            }
+        }
+        if k < rc.len() {
+            sr -= rc[k].0;
+            si -= rc[k].1;
+            sc += rc[k].0.hypot(rc[k].1);
+        }
+        worst = worst.max(sr.hypot(si));
+        scale = scale.max(sc);
+    }
+    let rel = if scale == 0.0 { 0.0 } else { worst / scale };
+    let rel = if rel.is_nan() { f64::INFINITY } else { rel };
+    acc.worst("division_identity_relative_error_complex_scaled", rel, || format!("u0={:?} v0={:?} su={:e} sv={:e}", u0, v0, su, sv));
+    ensure!(rel <= 1e-12, "complex (scaled {:e} / {:e}) u - (q*v + r) has relative size {:e}; q = {:?}, r = {:?}", su, sv, rel, coeffs_of(&q), coeffs_of(&rm));
+    let mut rl = rc.len();
+    while rl > 0 && rc[rl - 1] == (0.0, 0.0) {
+        rl -= 1;
+    }
+    ensure!(rl == 0 || rl < v0.len(), "complex (scaled): deg r = {} is not below deg v = {}", rl - 1, v0.len() - 1);
+    acc.nontriv("complex division at extreme scale judged");
+    Ok(())
+}
+
 fn main() {
     let ctx = Ctx::from_args("C12");
     ctx.level("exploration");
@@ -208,6 +260,7 @@ fn main() {
     ctx.assume("divisors whose stored leading coefficient is zero are outside the claim (only absence of a panic is required over floats)");
     ctx.threshold("division_identity_relative_error", REL);
     ctx.threshold("division_identity_relative_error_complex", 1e-12);
+    ctx.threshold("division_identity_relative_error_complex_scaled", 1e-12);
     ctx.require(&["empty or all-zero divisor", "divisor longer than dividend", "constant divisor", "non-zero remainder", "leading term does not cancel exactly in f64", "complex division judged"]);
     let z5 = vec![r(0), r(1), r(-1), r(2), r(-2)];
     let nu = count_vecs(0, 4, 5);
@@ -416,11 +469,42 @@ fn main() {
             }
         },
     );
-    // Known finding: Complex<f64> division by a leading coefficient of modulus beyond ~1e154 / below ~1e-154 (unscaled complex
-    // division, see C01): the quotient is NaN although every coefficient ratio is O(1).
     {
-        ctx.known_cases(
-            "listed inputs: Complex<f64> polynomial division at extreme magnitude",
+        // every dividend / divisor pair of the small complex lattice, each scaled by a power of two up to 2^+-480
+        let c5 = vec![Cmplx::new(0., 0.), Cmplx::new(1., 0.), Cmplx::new(0., 1.), Cmplx::new(-1., 2.), Cmplx::new(3., -1.)];
+        let scales = [2f64.powi(-480), 2f64.powi(-340), 1.0, 2f64.powi(342), 2f64.powi(480)];
+        let nu = count_vecs(1, ctx.pick(3, 4), 5);
+        let nv = count_vecs(1, 3, 5);
+        let per = (scales.len() * scales.len()) as u64;
+        ctx.lattice(
+            "Complex<f64> at extreme scale: dividends of length 1..3(4) x divisors of length 1..3 over {0,1,i,-1+2i,3-i}, each side scaled by {2^-480,2^-340,1,2^342,2^480}",
+            nu * nv * per,
+            |idx| format!("u0={:?} v0={:?} scales#{}", vec_from_idx(idx / per / nv, 1, &c5), vec_from_idx(idx / per % nv, 1, &c5), idx % per),
+            |idx, acc| {
+                let u0 = vec_from_idx(idx / per / nv, 1, &c5);
+                let v0 = vec_from_idx(idx / per % nv, 1, &c5);
+                let su = scales[(idx % per) as usize / scales.len()];
+                let sv = scales[(idx % per) as usize % scales.len()];
+                let mut local = Acc::new("t");
+                let res = catch(|| check_cmplx_scaled(&u0, &v0, su, sv, &mut local));
+                if local.nontrivial > 0 && (su != 1.0 || sv != 1.0) {
+                    acc.nontriv("complex division at extreme scale judged");
+                }
+                acc.merge_worst(local);
+                let key = || format!("complex scaled u0={:?} v0={:?} su={:e} sv={:e}", u0, v0, su, sv);
+                match res {
+                    Ok(Ok(())) => {}
+                    Ok(Err(e)) => acc.fail(idx, key(), e),
+                    Err(p) => acc.fail(idx, key(), format!("unexpected panic: {}", p)),
+                }
+            },
+        );
+    }
+    // Complex<f64> division by a leading coefficient of modulus beyond ~1e154 / below ~1e-154 (unscaled complex division, see C01):
+    // the quotient was NaN although every coefficient ratio is O(1). Repaired by 8d587e4, demanded now.
+    {
+        ctx.listed_cases(
+            "listed inputs: Complex<f64> polynomial division at extreme magnitude (bug-hunt inputs, repaired by 8d587e4)",
             vec![
                 ("extreme-complex polydiv [3e200] / [1e200]".to_string(), Box::new(|| {
                     let u = Polynomial::new(vec![Cmplx::new(3e200, 0.0)]);
